@@ -176,34 +176,44 @@ def run(ctx, F, cg):
             ctx.ok("R22b", "encode|coverage", "explicit arm for each of %s" % sorted(variants))
     # ---- R22c: the server writes only encoder output (or bytes forwarded from another node) --------
     ctx.rule("R22c", "every write_all in the connection loop sends a buffer filled by RespValue::encode or returned by Proxy::forward")
-    hcs = [r for p, r in F.fns.items() if p.startswith("samyama::protocol::server::handle_connection::") and r["coroutine"]]
-    if not hcs:
-        ctx.anchor_failure("R22c", "protocol::server::handle_connection coroutine")
+    hcs = [r for p, r in F.fns.items() if p.startswith("samyama::protocol::") and any(("AsyncWriteExt" in c or "tokio::net" in c) and c.rsplit("::", 1)[-1] in ("write_all", "write", "write_buf", "write_all_buf", "try_write", "write_vectored") for c in r["calls"])]
+    if not any(r["path"].startswith("samyama::protocol::server::handle_connection::") for r in hcs):
+        ctx.anchor_failure("R22c", "protocol::server::handle_connection coroutine writing to the socket")
     nw = 0
-    for r in hcs:
-        hb = Body(F.mir(r["path"]), r)
-        ctx.saw_fn(r["path"])
-        ctx.saw_calls(len(hb.calls()))
+
+    def buffer_ok(hb, a, depth=0):
+        """(ok, reason): does the written buffer come from RespValue::encode / Proxy::forward?"""
         enc_bufs = set()
         for c in hb.calls_to(["RespValue::encode"]):
             if len(c.args) > 1 and c.args[1][0] != "k":
-                for l in _base_locals(hb, c.args[1][1][0]):
-                    enc_bufs.add(l)
+                enc_bufs |= _base_locals(hb, c.args[1][1][0])
         fwd = set()
         for c in hb.calls():
             if c.path.endswith("Proxy::forward"):
                 fwd.add(c.dest[0])
         fwd = hb.forward_taint(fwd, through_calls=lambda c, ix: c.expname == "Await" or c.path.rsplit("::", 1)[-1] in ("into_future", "poll", "branch", "new_unchecked", "deref", "as_slice", "as_ref"))
-        for k, c in enumerate([c for c in hb.calls() if c.path.endswith("::write_all")]):
+        bases = _base_locals(hb, a[1][0]) if a and a[0] != "k" else set()
+        if bases & enc_bufs:
+            return True, "buffer was filled by RespValue::encode"
+        if bases & fwd:
+            return True, "bytes returned by Proxy::forward (another node's encoder output)"
+        return False, "bytes written to the client do not come from RespValue::encode"
+
+    for r in sorted(hcs, key=lambda x: x["path"]):
+        hb = Body(F.mir(r["path"]), r)
+        ctx.saw_fn(r["path"])
+        ctx.saw_calls(len(hb.calls()))
+        short = r["path"].replace("samyama::protocol::", "")
+        if short.startswith("server::handle_connection::"):
+            short = "handle_connection"
+        for k, c in enumerate([c for c in hb.calls() if c.path.rsplit("::", 1)[-1] in ("write_all", "write", "write_buf", "write_all_buf", "try_write", "write_vectored") and ("AsyncWriteExt" in c.path or "tokio::net" in c.path or "AsyncWriteExt" in c.decl)]):
             nw += 1
             a = c.args[1] if len(c.args) > 1 else None
-            bases = _base_locals(hb, a[1][0]) if a and a[0] != "k" else set()
-            if bases & enc_bufs:
-                ctx.ok("R22c", "write|%d" % k, "buffer was filled by RespValue::encode")
-            elif bases & fwd:
-                ctx.ok("R22c", "write|%d" % k, "bytes returned by Proxy::forward (another node's encoder output)")
+            ok, why = buffer_ok(hb, a)
+            if ok:
+                ctx.ok("R22c", "%s|write|%d" % (short.replace("handle_connection", "write") if False else short, k) if short != "handle_connection" else "write|%d" % k, why)
             else:
-                ctx.violation("R22c", "handle_connection|write|%d" % k, where(r, c.line), "bytes written to the client do not come from RespValue::encode")
+                ctx.violation("R22c", "%s|write|%d" % (short, k), where(r, c.line), why)
     ctx.floor("R22c", "write_all calls in the connection loop", nw, 3)
     return ("Decided: in the encoder, string data reaches a CRLF-terminated frame only through a function that replaces both CR and LF "
             "(constants, transforming call and the pass-through guard are checked on MIR); numeric and length-prefixed variants cannot "
